@@ -326,7 +326,60 @@ def _loops_back_without(b, h, wr):
     return False
 
 
+def r8(rep, prog):
+    """every codec clamps the requested rows to the rows it has"""
+    import re
+    R = "C08-R8"
+    rep.rule(R, "row ranges are clamped by every codec: ColumnValues::get_row_ids_for_value_range(value range, row range, out) is handed row ranges that may extend past the column (Column::get_docids_for_value_range(.., 0..u32::MAX, ..)). Sibling agreement: every implementation that does the lookup itself (does not delegate to another get_row_ids_for_value_range) bounds the row range by its own number of values — a `min` fed by num_vals() / the stats' row count; one that forwards the range untouched reads past its data (BitUnpacker: 'Requested index is out of bounds')")
+    n = 0
+    for fid, b in sorted(prog.bodies.items()):
+        if not re.search(r" as tantivy_columnar::column_values::ColumnValues(<[^>]*>)?>::get_row_ids_for_value_range$|^tantivy_columnar::column_values::ColumnValues::get_row_ids_for_value_range$", fid):
+            continue
+        calls = [(bi, t.get("res") or t.get("f") or "") for bi, t in b.calls()]
+        if any(c.endswith("get_row_ids_for_value_range") for _, c in calls):
+            rep.ok(R, "%s delegates" % short(fid), "forwards to another implementation", site=b.span)
+            continue
+        n += 1
+        mins = [bi for bi, c in calls if re.search(r"::cmp::Ord::min$|::min$", c)]
+        ok = False
+        for bi in mins:
+            t = b.term(bi)
+            lv = set()
+            for o in t.get("args", []):
+                if op_local(o) is not None:
+                    lv |= provenance(b, op_local(o))
+            if any(x[0] == "call" and x[1].endswith("::num_vals") for x in lv) or _reads_field(b, t, ("num_rows", "num_vals")):
+                ok = True
+        rep.check(ok, R, "%s bounds the row range by its number of values" % short(fid), "min(.., num_vals)",
+                  "`%s` looks the value range up over the row range it was given without bounding it by the number of values of the column — its siblings all do: a row range that extends past the column "
+                  "(0..u32::MAX) makes the bit-packed codec read past its data and panic (`Requested index is out of bounds`)" % fid, site=b.span)
+    rep.floor(R, "implementations of get_row_ids_for_value_range that do the lookup themselves", n, 3)
+
+
+def _reads_field(b, t, names):
+    from ..model import proj_fields, op_place
+    work, seen = [op_local(o) for o in t.get("args", []) if op_local(o) is not None], set()
+    while work:
+        l = work.pop()
+        if l in seen:
+            continue
+        seen.add(l)
+        for d in b.defs().get(l, []):
+            if d[0] != "stmt":
+                continue
+            st = d[3]
+            for pl in [st.get("p")] + [op_place(o) for o in st.get("o", [])]:
+                if pl is None:
+                    continue
+                if not isinstance(pl, int) and any(f[1] in names for f in proj_fields(pl)):
+                    return True
+                from ..model import place_local
+                work.append(place_local(pl))
+    return False
+
+
 def run(rep, prog, tier):
+    r8(rep, prog)
     r7(rep, prog)
     r2(rep, prog)
     r3(rep, prog)
